@@ -1300,7 +1300,7 @@ def run(ctx):
             sweep(ctx, words[k:k + 10], f"w{k}")
         ctx.exhaustive = {"reserved_words_as_path_variable_body_field_query_field": len(words)}
     r = ctx.rng("apis")
-    for a in range(ctx.n(18, 330)):
+    for a in range(ctx.n(18, 300)):
         run_api(ctx, r, gen_api(r, a), f"api{a}")
 
 
